@@ -4,7 +4,10 @@
 // for spec/FaultTrace.tla:
 //   {"ops":[...], "mode":"single"|"from", "k":k, "n":N, "fired":bool, "ret":..., "obs":<post>,
 //    "insp":[problems per doc], "live":blocks still live after clear(), "works":bool}
-// plus "chaos" events: random multi-failure subsets over the WHOLE behaviour (safety only).
+// plus "chaos" events: random multi-failure subsets over the WHOLE behaviour (safety only).  Failures in
+// the prefix change what the later operations address, so each operation is executed only if it still
+// satisfies Document!Legal in the state actually reached (common/concretelegal.hpp); the behaviour ends
+// at the first one that does not ("trunc" = operations executed, "why" = dead-ref | alias | prefix-source).
 //
 // usage: doc_fault <behaviours.ndjson> <seed> <out.ndjson> [maxk]
 #include <cstdio>
@@ -14,6 +17,7 @@
 
 #include "common/docworld.hpp"
 #include "common/inspector.hpp"
+#include "common/concretelegal.hpp"
 
 using namespace dw;
 
@@ -38,6 +42,31 @@ static mj::Value inspect(World& w) {
     a.a.push_back(pr);
   }
   return a;
+}
+
+// The read-API projection does not terminate on a cyclic tree: when the inspector has found structural
+// damage the documents are not walked, and FaultTrace rejects the event on "insp" alone.
+static mj::Value observeUnlessDamaged(World& w, const std::vector<std::string>& status, const mj::Value& insp) {
+  bool damaged = false;
+  for (auto& d : insp.a) if (!d.a.empty()) damaged = true;
+  if (!damaged) return observe(w, status);
+  mj::Value obs = mj::Value::mkObj(), docs = mj::Value::mkArr(), refs = mj::Value::mkArr();
+  for (int d = 1; d <= w.nd; d++) {
+    mj::Value e = mj::Value::mkObj();
+    e.set("root", vproj::node("x", ""));
+    e.set("ovf", mj::Value::mkBool(w.doc(d).overflowed()));
+    e.set("ser", mj::Value::mkStr(""));
+    docs.a.push_back(e);
+  }
+  for (int r = 1; r <= w.nr; r++) {
+    mj::Value e = mj::Value::mkObj();
+    e.set("st", mj::Value::mkStr("dead"));
+    e.set("v", vproj::node("x", ""));
+    refs.a.push_back(e);
+  }
+  obs.set("docs", docs);
+  obs.set("refs", refs);
+  return obs;
 }
 
 // after the faulted operation: everything is returned on clear(), and the document works again
@@ -68,7 +97,7 @@ int main(int argc, char** argv) {
   std::ofstream out(argv[3]);
   long maxk = argc > 4 ? atol(argv[4]) : 40;
   std::string line;
-  long idx = 0, events = 0, fired = 0, behaviours = 0, ledgerErrors = 0;
+  long idx = 0, events = 0, fired = 0, behaviours = 0, ledgerErrors = 0, chaosRuns = 0, chaosTruncated = 0, chaosOps = 0;
   while (std::getline(in, line)) {
     if (line.empty()) continue;
     g_line = idx;
@@ -115,8 +144,9 @@ int main(int argc, char** argv) {
         ev.set("n", mj::Value::mkInt(N));
         ev.set("fired", mj::Value::mkBool(nf > 0));
         ev.set("ret", mj::Value::mkStr(ret));
-        ev.set("obs", observe(w, status));
-        ev.set("insp", inspect(w));
+        mj::Value insp = inspect(w);
+        ev.set("obs", observeUnlessDamaged(w, status, insp));
+        ev.set("insp", insp);
         long live;
         bool works;
         aftermath(w, live, works);
@@ -150,14 +180,26 @@ int main(int argc, char** argv) {
       if (!ks_.empty()) {
         g_k = -1;
         VerifAllocator::armSet(ks_);
-        for (auto& o : ops) exec(w, o, ks);
+        size_t done = 0;
+        std::string why;
+        for (auto& o : ops) {
+          if (!legalNow(w, o, why)) break;  // read-only: no allocator call
+          exec(w, o, ks);
+          done++;
+        }
         VerifAllocator::disarm();
+        chaosRuns++;
+        chaosOps += (long)done;
+        if (done < ops.size()) chaosTruncated++;
         // a reference may dangle after a failed operation sequence: only documents are observed
         std::vector<std::string> dead(status.size(), "dead");
         mj::Value ev = mj::Value::mkObj();
         ev.set("e", mj::Value::mkStr("chaos"));
-        ev.set("obs", observe(w, dead));
-        ev.set("insp", inspect(w));
+        ev.set("trunc", mj::Value::mkInt((long)done));
+        ev.set("why", mj::Value::mkStr(why));
+        mj::Value insp = inspect(w);
+        ev.set("obs", observeUnlessDamaged(w, dead, insp));
+        ev.set("insp", insp);
         long live;
         bool works;
         aftermath(w, live, works);
@@ -173,6 +215,7 @@ int main(int argc, char** argv) {
     }
     idx++;
   }
-  printf("SUMMARY behaviours=%ld events=%ld fired=%ld ledger_errors=%ld\n", behaviours, events, fired, ledgerErrors);
+  printf("SUMMARY behaviours=%ld events=%ld fired=%ld ledger_errors=%ld chaos_runs=%ld chaos_ops=%ld chaos_truncated=%ld\n", behaviours, events,
+         fired, ledgerErrors, chaosRuns, chaosOps, chaosTruncated);
   return 0;
 }
